@@ -7,13 +7,18 @@
    input: both claims for the scanner, for the removal of pure action lines
    (the one loop of the filter whose termination is not evident: it pushes
    tokens back on its work list), for phrase replacement and for the
-   multi-language split.  Not proved: the same two claims for the expander
+   multi-language split; and for the main loop of the expander on every
+   token list of plain text, special sequences, undeclared control words,
+   comments, braces and nested pass-through macros (C07_expander_total_on_class:
+   fuel 5n+1 suffices, the result is Ok).  Not proved: the same two claims
+   for the expander on arbitrary input
    (coq/model/{Parser,Expand,Math,Exec}.v); there the check relies on the
    correspondence run (outcome class of model and implementation on the
    malformed stream) and on the oracle (no exception, no hang). *)
 From Coq Require Import String.
 From YV Require Import PyBase CharTables Token Utils Scanner Rpal PState Parser Exec Ml
-                       Replace ReplaceProofs RpalProofs TotalProofs Catalogue.
+                       Replace ReplaceProofs RpalProofs TotalProofs ExecPlain ExecUnk ExecArgs
+                       ClassDecide Catalogue.
 Open Scope Z_scope.
 
 (* (1) scanner: a pure function of the text; the fuel scan() passes is
@@ -54,6 +59,28 @@ Theorem C07_collections_present : forall lang multi simple reader,
 Proof. exact (fun lang multi simple reader =>
                 rot_ok_init py_tables lang multi simple reader (eq_refl true)). Qed.
 Print Assumptions C07_collections_present.
+
+(* (5) the main loop of the expander terminates and returns on every token
+   list of the class: no exception, no fatal exit, fuel 5n+1 is enough *)
+Theorem C07_expander_total_on_class : forall rd toks rout st,
+  bcl py_tables (macros st) toks ->
+  exists r, exec py_tables rd (S (5 * length toks)) (TSeq toks None rout) st = Ok r.
+Proof.
+  exact (fun rd => exec_args_total_len py_tables rd (eq_refl true)).
+Qed.
+Print Assumptions C07_expander_total_on_class.
+
+(* (6) at the level of a document: Parser.parser_work returns for every
+   source text that the computable test doc_in_class accepts *)
+Theorem C07_documents_of_the_class : forall rd st latex,
+  doc_in_class py_tables st latex = true ->
+  exists r, parser_work py_tables
+              (exec py_tables rd (S (5 * length (fst (scan (t_scan py_tables) latex)))))
+              st latex = Ok r.
+Proof.
+  exact (fun rd => parser_work_class_total py_tables rd (eq_refl true) (fun c => eq_refl)).
+Qed.
+Print Assumptions C07_documents_of_the_class.
 
 Example C07_nonvacuous :
   exists r, remove_pure_action_lines py_isspace
